@@ -593,11 +593,28 @@ pub fn run_case(tape: &mut Tape, _tier: Tier, _p: &CaseParams) -> CaseOutcome {
           m.iter().any(|(k, v)| {
             k.starts_with(crate::world::REGISTRY)
               && v.get("error").is_some()
-              && world.descs.get(k).is_some_and(|d| {
-                d.items.iter().any(|i| {
-                  i.spec.starts_with("jsr:") || i.spec.starts_with("npm:")
-                })
-              })
+              && {
+                // the failed module or anything it (transitively) imports
+                // - the orphans it leaves behind - imports a package
+                let mut todo = vec![k.clone()];
+                let mut seen = std::collections::BTreeSet::new();
+                let mut found = false;
+                while let Some(u) = todo.pop() {
+                  if !seen.insert(u.clone()) || seen.len() > 64 {
+                    continue;
+                  }
+                  if let Some(d) = world.descs.get(&u) {
+                    for i in &d.items {
+                      if i.spec.starts_with("jsr:") || i.spec.starts_with("npm:") {
+                        found = true;
+                      } else {
+                        todo.push(resolve_text(&world, &d.url, &i.spec));
+                      }
+                    }
+                  }
+                }
+                found
+              }
           })
         })
       });
